@@ -107,6 +107,22 @@ def check(model, tier):
                 bound = env_at(p).get(v.id)
                 if isinstance(bound, ast.expr):
                     v = bound
+            # an override that delegates to the verified base implementation is as good as the base
+            if isinstance(v, ast.Call) and src(v.func) == "super().get_relation_name" and [src(a) for a in v.args] + [src(k.value) for k in v.keywords] == [prefix]:
+                run.ok("R19.1", inst, {"returns": src(v), "delegates": True})
+                continue
+            # the whole name cut to a length: the random part sits at the end, so this is where it is lost
+            if isinstance(v, ast.Subscript) and isinstance(v.slice, ast.Slice):
+                run.fail(
+                    "R19.1",
+                    inst,
+                    f"the generated name is truncated (`{src(v)[:70]}`): the unique uuid4 part is at the end of the name, so a long "
+                    "caller-supplied prefix leaves little or nothing of it and names repeat",
+                    fi=f,
+                    node=p.node,
+                    details=describe(p),
+                )
+                continue
             pieces = _pieces(v)
             if pieces is None:
                 raise AnalysisError(f"{f.key}: returned name {src(p.value)} is built in a way the rule does not recognise")
@@ -149,7 +165,13 @@ def check(model, tier):
             else:
                 run.fail("R19.2", "LeafRelation.__post_init__:default-name", f"default leaf name is not get_relation_name(<prefix parameter>): {src(val)}", fi=post, node=call)
     if not found:
-        raise AnalysisError("LeafRelation.__post_init__ no longer assigns a default name")
+        run.fail(
+            "R19.2",
+            "LeafRelation.__post_init__:default-name",
+            "LeafRelation.__post_init__ no longer gives an unnamed leaf a generated name: LeafRelation(...) is a public "
+            "constructor (and the only way for engines without make_leaf), so leaves built directly all share the empty name",
+            fi=post,
+        )
     # (b) Engine.materialize (all overrides): `name` is the parameter, or get_relation_name(name_prefix)
     for c in m.subclasses(engine_root):
         f = c.methods.get("materialize")
